@@ -59,6 +59,9 @@ func shortFrame(c *sim.Ctx) []byte {
 			a.PacketID = uint16(1 + t.Int(300))
 		}
 		a.Payload = s(3)
+		if c.Thorough && t.Bool(1, 2) {
+			a.Payload = s(5) // up to 15 bytes: 16384 compositions x 3 endings
+		}
 	case ref.PubAck, ref.PubRec, ref.PubRel, ref.PubComp:
 		a.PacketID = uint16(1 + t.Int(300))
 		a.Form = t.Int(3)
@@ -112,7 +115,7 @@ func shortFrame(c *sim.Ctx) []byte {
 		// sweep also splits inside the header's variable byte integer
 		f = overlongRL(f, 1+t.Int(2))
 	}
-	if len(f) > 12 {
+	if len(f) > 16 {
 		// cannot happen with the bounds above; keep the invariant explicit
 		panic(fmt.Sprintf("shortFrame produced %d bytes", len(f)))
 	}
@@ -201,7 +204,7 @@ func c07Compare(c *sim.Ctx, frame []byte, want Outcome, got Outcome, r *link.Rea
 
 func runC07(c *sim.Ctx) *sim.Violation {
 	t := c.T
-	if c.Run < c07ShortRuns {
+	if c.Run < c07ShortRuns || (c.Thorough && c.Run < 20*c07ShortRuns) {
 		return c07Exhaustive(c)
 	}
 	frame, fm, valid := c07Frame(c)
@@ -402,7 +405,7 @@ var C07 = &sim.Scenario{
 	RunFn: runC07,
 	Extra: func(th bool, counts map[string]int64) map[string]interface{} {
 		return map[string]interface{}{
-			"exhaustive_subspace": "all compositions x 3 endings of 48 frames of <= 12 bytes (14 packet types; CONNECT's minimum is 15 bytes and is covered by the seeded and single-split sweeps)",
+			"exhaustive_subspace": "all compositions x 3 endings of 48 (quick) / 960 (thorough) frames of <= 12 (quick) / <= 16 (thorough) bytes, a third of them with a non-minimal multi-byte remaining length (14 packet types; CONNECT's minimum is 15 bytes and is covered by the seeded and single-split sweeps)",
 			"schedules_executed":  counts["schedules"],
 		}
 	},
